@@ -951,6 +951,147 @@ def pipeline_stream(ctx, cases: List[Dict[str, Any]]):
                 observed={"declared": st["decl"][1], "assigned": st["decl"][0]},
                 how="apply_ast_transformations + write_cpp_files; read the class declaration and the assignment of the column",
             )
+    return staged
+
+
+# --------------------------------------------------------------------------------------------
+# the generated LINE, compiled: a mock method echoes its argument, a mock store records the bank
+# --------------------------------------------------------------------------------------------
+LINE_MOCK_HEAD = r"""#include <cstdio>
+#include <cstring>
+#include <string>
+static int IDX = 0;
+static void hx(const void* p, size_t n){ const unsigned char* b=(const unsigned char*)p; for(size_t i=0;i<n;i++) printf("%02x", b[i]); printf("\n"); }
+static void show(const std::string& s){ printf("%d S %zu ", IDX, s.size()); hx(s.data(), s.size()); }
+static void show(const char* s){ show(std::string(s)); }
+static void show(int v){ printf("%d N int ", IDX); hx(&v, sizeof v); }
+static void show(unsigned v){ printf("%d N unsigned int ", IDX); hx(&v, sizeof v); }
+static void show(long v){ printf("%d N long ", IDX); hx(&v, sizeof v); }
+static void show(unsigned long v){ printf("%d N unsigned long ", IDX); hx(&v, sizeof v); }
+static void show(long long v){ printf("%d N long long ", IDX); hx(&v, sizeof v); }
+static void show(float v){ printf("%d N float ", IDX); hx(&v, sizeof v); }
+static void show(double v){ printf("%d N double ", IDX); hx(&v, sizeof v); }
+static void show(bool v){ printf("%d N bool ", IDX); hx(&v, sizeof v); }
+#define ANA_CHECK(x) x
+struct Store { template<class T> int retrieve(T&, const std::string& n){ show(n); return 0; } };
+static Store* evtStore(){ static Store s; return &s; }
+struct Ev { template<class T> void getByLabel(const std::string& n, T&){ show(n); } };
+namespace edm { struct InputTag { InputTag(const std::string& n){ show(n); } }; }
+namespace pat { struct MuonCollection {}; }
+template<class T> int consumes(const edm::InputTag&){ return 0; }
+struct Obj { template<class T> double zzq(T v){ show(v); return 0; } template<class T> double zzq(int, T v){ show(v); return 0; } };
+int main(){ Obj obj; Ev iEvent; (void)obj; (void)iEvent;
+"""
+
+
+def line_block(i: int, backend: str, pos: str, line: str, decl: Optional[str]) -> Optional[str]:
+    """one generated line in a scope that declares what it mentions"""
+    l = line.strip()
+    if pos == "bank":
+        pre = {"atlas": "const int* result = 0;", "cms_aod": "int result = 0;", "cms_miniaod": "int "}[backend]
+        return "{ IDX = %d; %s\n%s\n}\n" % (i, pre, l)
+    if pos in ("arg1", "arg2"):
+        m = re.match(r"^(_col1\d+) = (\w+)(->|\.)zzq\(", l)
+        if not m:
+            return None
+        obj = ("Obj* %s = &obj;" if m.group(3) == "->" else "Obj& %s = obj;") % m.group(2)
+        return "{ IDX = %d; %s double %s;\n%s\n(void)%s; }\n" % (i, obj, m.group(1), l, m.group(1))
+    if pos == "column":
+        m = re.match(r"^(_col1\d+) = ", l)
+        if not m or not decl or not re.match(r"^[A-Za-z_][\w ]*$", decl):
+            return None
+        return "{ IDX = %d; %s %s;\n%s\nshow(%s); }\n" % (i, decl, m.group(1), l, m.group(1))
+    return None
+
+
+def run_line_echo(blocks: List[str]) -> Dict[str, Any]:
+    d = Path(tempfile.mkdtemp(prefix="c18l"))
+    try:
+        (d / "l.cpp").write_bytes((LINE_MOCK_HEAD + "".join(blocks) + "return 0; }\n").encode("utf-8"))
+        p = subprocess.run(["g++", "-w", "-O0", "l.cpp", "-o", "l"], cwd=d, capture_output=True, text=True, timeout=600)
+        if p.returncode != 0:
+            return {"compile_error": p.stderr[:800]}
+        r = subprocess.run(["./l"], cwd=d, capture_output=True, text=True, timeout=120)
+        res: Dict[int, Any] = {}
+        for ln in r.stdout.split("\n"):
+            m = re.match(r"^(\d+) S (\d+) ([0-9a-f]*)$", ln)
+            if m:
+                res[int(m.group(1))] = ("S", bytes.fromhex(m.group(3)))
+                continue
+            m = re.match(r"^(\d+) N ([a-z ]+) ([0-9a-f]*)$", ln)
+            if m:
+                res[int(m.group(1))] = ("N", m.group(2), bytes.fromhex(m.group(3)))
+        return {"out": res}
+    finally:
+        shutil.rmtree(d, ignore_errors=True)
+
+
+def expected_in_column(v: Any, decl: str) -> Any:
+    """what a variable of the declared type must hold if the constant is to be kept"""
+    if decl == "double":
+        return ("N", "double", struct.pack("<d", float(v)))
+    if decl == "bool":
+        return ("N", "bool", b"\x01" if v else b"\x00")
+    if decl == "int":
+        try:
+            return ("N", "int", int(v).to_bytes(4, "little", signed=True)) if float(v) == int(v) else ("N", "int", b"does not fit")
+        except OverflowError:
+            return ("N", "int", b"does not fit")
+    return ("N", decl, b"?")
+
+
+def line_echo_stream(ctx, staged: List[Dict[str, Any]], n: int, workers: int):
+    items = []
+    for st in staged:
+        c = st["c"]
+        if st.get("found") is None or c["pos"] not in ("bank", "arg1", "arg2", "column") or type(c["v"]) not in (str, int, float, bool):
+            continue
+        decl = st.get("decl", (None, None))[1]
+        blk = line_block(0, c["backend"], c["pos"], st["found"][2], decl)
+        if blk is None:
+            ctx.count("line-echo:skipped-shape")
+            continue
+        items.append((st, decl))
+        if len(items) >= n:
+            break
+    chunks = [items[i : i + 150] for i in range(0, len(items), 150)]
+
+    def job(chunk):
+        return chunk, run_line_echo([line_block(i, st["c"]["backend"], st["c"]["pos"], st["found"][2], decl) for i, (st, decl) in enumerate(chunk)])
+
+    with concurrent.futures.ThreadPoolExecutor(max_workers=workers) as ex:
+        results = list(ex.map(job, chunks))
+    for chunk, res in results:
+        if "compile_error" in res:
+            # which line? compile them one at a time (rare path)
+            for st, decl in chunk:
+                one = run_line_echo([line_block(0, st["c"]["backend"], st["c"]["pos"], st["found"][2], decl)])
+                if "compile_error" in one:
+                    c = st["c"]
+                    ctx.violation(
+                        key=f"line:{c['pos']}:{describe(c['v'])['kind']}:{describe(c['v']).get('v', describe(c['v']).get('repr'))}",
+                        what=f"g++ rejects the generated line `{st['found'][2].strip()}` ({c['backend']}, constant {c['v']!r} in position {c['pos']})",
+                        case={"stream": "pipeline", "backend": c["backend"], "position": c["pos"], "via": st["via"], "const": describe(c["v"])},
+                        observed=one["compile_error"][:300],
+                        how="compile the generated line against a mock store / a mock method that echoes its argument",
+                    )
+                    break
+            continue
+        for i, (st, decl) in enumerate(chunk):
+            c = st["c"]
+            v = c["v"]
+            ctx.count(f"line-echo:{c['pos']}")
+            got = res["out"].get(i)
+            want = expected_in_column(v, decl) if c["pos"] == "column" else expected_echo(v)
+            if got != want:
+                ctx.violation(
+                    key=f"line:{c['pos']}:{describe(v)['kind']}:{describe(v).get('v', describe(v).get('repr'))}",
+                    what=f"compiled with g++, the generated line `{st['found'][2].strip()}` ({c['backend']}) hands over {got}, the constant {v!r} is {want}",
+                    case={"stream": "pipeline", "backend": c["backend"], "position": c["pos"], "via": st["via"], "const": describe(v)},
+                    observed=str(got),
+                    how="compile the generated line against a mock store / a mock method that echoes its argument",
+                )
+    ctx.extra_cov["gpp_line_echo"] = len(items)
 
 
 def model_book_lines(ctx, backend: str, tree: str, leaves: List[Tuple[str, str]]) -> Optional[Dict[str, Any]]:
@@ -1392,7 +1533,13 @@ def entry_steps(ctx, e: Dict[str, Any]):
             ans2 = yield [{"op": "spec", "c": const_json(v), "out": {"ok": {"text": cp(text), "ty": ty or "?"}}} for _, ty, text in second]
             for (b, ty, text), s2 in zip(second, ans2):
                 if not s2.get("holds", False):
-                    fails.append({"backend": b, "declared": ty, "assigned": text, "why": s2.get("why", s2)})
+                    f = {"backend": b, "declared": ty, "assigned": text, "why": s2.get("why", s2)}
+                    if b == "atlas" and ty and re.match(r"^[A-Za-z_][\w ]*$", ty):  # g++ on the generated line: what the column holds
+                        g = run_line_echo(["{ IDX = 0; %s _col10;\n_col10 = %s;\nshow(_col10); }\n" % (ty, text)])
+                        got = g.get("out", {}).get(0)
+                        if got and got[0] == "N" and got[1] == "int":
+                            f["g++: the column holds"] = int.from_bytes(got[2], "little", signed=True)
+                    fails.append(f)
         return {"fails": fails} if fails else None
     if kind == "names":
         tree, names = uncp(inp["tree"]), [uncp(x) for x in inp["names"]]
@@ -1555,8 +1702,10 @@ def run(ctx):
     recs = unit_stream(ctx, consts)
     _tick(ctx, "unit")
     ctx.check_time()
-    pipeline_stream(ctx, pipeline_cases(ctx, 3000 if thorough else 240))
+    staged = pipeline_stream(ctx, pipeline_cases(ctx, 3000 if thorough else 240))
     _tick(ctx, "pipeline")
+    line_echo_stream(ctx, staged, 1200 if thorough else 100, workers)
+    _tick(ctx, "g++ line echo")
     ctx.check_time()
     book_stream(ctx, 6000 if thorough else 600)
     _tick(ctx, "book")
@@ -1567,6 +1716,9 @@ def run(ctx):
     _tick(ctx, "g++ echo")
     lexer_validation(ctx, thorough)
     _tick(ctx, "lexer validation")
+    if ctx.violations:  # minimise the failing input that will be written to the replay file
+        first = shrink(ctx, ctx.violations[0])
+        ctx.violations[0] = first
     ctx.extra_cov["exhaustive"] = False
     ctx.extra_cov["exhaustive_part"] = "as_cpp_string_literal on every single Unicode scalar value (1,112,064 characters) when regenerating the escape table; the booking/fill emitters of all three backends on sentinel names"
     ctx.extra_cov["populations"] = {
@@ -1581,7 +1733,10 @@ def search(ctx, broken):
     ctx.violations = []
     try:
         consts = [(gen_const(ctx.rng), list(BACKENDS)[i % 3]) for i in range(20000)]
-        # targeted: every character of the special alphabet alone and doubled, every edge number
+        # targeted: every character the regenerated escape table has a row for (what a broken table theorem is about),
+        # every character of the special alphabet alone and doubled, every edge number
+        for c_, _img in _LINES_CACHE.get("rows", [])[:2000]:
+            consts += [(chr(c_), "atlas"), ("a" + chr(c_) + "b", "cms_aod")]
         for b in BACKENDS:
             for ch in SPECIAL + CONTROL + WIDE + ["\0"]:
                 consts += [(ch, b), (ch + ch, b), ("a" + ch + "b", b)]
@@ -1606,24 +1761,31 @@ def search(ctx, broken):
 
 
 def shrink(ctx, hit):
-    """strings: delete characters while the same stream still fails on the case"""
+    """strings: delete characters while the same stream still fails on the case (counters and findings untouched)"""
     case = hit["case"]
-    if case.get("stream") not in ("unit", "pipeline") or case["const"]["kind"] != "str":
+    if case.get("stream") not in ("unit", "pipeline") or case.get("const", {}).get("kind") != "str":
         return hit
-    s = uncp(case["const"]["cp"])
-    changed = True
-    while changed and len(s) > 1:
-        changed = False
-        for i in range(len(s)):
-            t = s[:i] + s[i + 1 :]
-            c2 = dict(case, const=describe(t))
-            ctx.violations = []
-            run_case(ctx, c2, report=False)
-            if ctx.violations:
-                s, case, hit = t, c2, ctx.violations[0]
-                changed = True
-                break
-    return hit
+    saved = (ctx.violations, ctx.broken, ctx.dist, ctx.evaluations, ctx.nontrivial_keys, ctx.samples)
+    ctx.broken, ctx.dist, ctx.nontrivial_keys, ctx.samples = [], {}, set(), []
+    try:
+        s = uncp(case["const"]["cp"])
+        changed = True
+        rounds = 0
+        while changed and len(s) > 1 and rounds < 60:
+            changed = False
+            rounds += 1
+            for i in range(len(s)):
+                t = s[:i] + s[i + 1 :]
+                c2 = dict(case, const=describe(t))
+                ctx.violations = []
+                run_case(ctx, c2, report=False)
+                if ctx.violations:
+                    s, case, hit = t, c2, ctx.violations[0]
+                    changed = True
+                    break
+        return hit
+    finally:
+        ctx.violations, ctx.broken, ctx.dist, ctx.evaluations, ctx.nontrivial_keys, ctx.samples = saved
 
 
 def replay(ctx, rep) -> int:
